@@ -52,6 +52,9 @@ func writeReplay(eng *Engine, dir, prop string, o *Oblig, repo string) (string, 
 	path := base + ".replay.txt"
 	var sb strings.Builder
 	fmt.Fprintf(&sb, "property: %s\nobligation: %s\nposition: %s\nfunction: %s\nstatus: %s\nsolvers: %s\n", prop, o.Name, o.Pos, o.Func, o.Status, o.Note)
+	if o.Why != "" {
+		fmt.Fprintf(&sb, "reason: %s\n", o.Why)
+	}
 	fmt.Fprintf(&sb, "goal (must hold on every path reaching it):\n  %s\n", trunc(o.Goal.String(), 4000))
 	reproduced := false
 	if o.Status == "failed" && o.Model != "" {
